@@ -29,10 +29,10 @@ var ctPool = [][]string{
 
 var hdrPool = [][2]string{
 	{"X-Custom", "v1"}, {"Cache-Control", "no-store"}, {"Location", "/elsewhere"}, {"Vary", "Origin"}, {"Content-Language", "en"},
-	{"X-Request-Id", "abc-123"}, {"Etag", "\"v7\""}, {"X-Custom", "v2"}, {"Set-Cookie", "a=b"},
+	{"X-Request-Id", "abc-123"}, {"Etag", "\"v7\""}, {"X-Custom", "v2"}, {"Set-Cookie", "a=b"}, {"Content-Encoding", "x-own"},
 }
 
-var codePool = []int{200, 200, 200, 201, 202, 204, 206, 301, 302, 304, 400, 404, 418, 500, 503, 299, 599, 999, 203, 307}
+var codePool = []int{200, 200, 200, 201, 202, 204, 206, 301, 302, 304, 400, 404, 418, 500, 503, 299, 599, 999, 203, 307, 103, 100, 102}
 
 var exclCTPool = [][]string{nil, nil, nil, {"image/jpeg", "application/zip"}, {"text/csv"}, {"JSON"}, {"text/"}, {"application/x-custom", "image/"}}
 var pathPool = []string{"/p", "/p", "/p", "/metrics", "/a.png", "/x.gz", "/data.json", "/p.PNG", "/deep/path/file.txt"}
@@ -210,6 +210,20 @@ func genCase(r *hx.Rand, tier string) *caseT {
 		}
 		return k
 	}
+	pn := -1
+	if r.Chance(1, 14) {
+		// the handler panics somewhere; recovery.New() sits in front of the compression middleware
+		k.Recovery = true
+		pn = r.Range(0, nops)
+	}
+	defer func() {
+		if pn >= 0 {
+			if pn > len(k.Prog) {
+				pn = len(k.Prog)
+			}
+			k.Prog = append(k.Prog[:pn:pn], opT{K: "Pn"})
+		}
+	}()
 	for len(k.Prog) < nops {
 		switch r.Intn(23) {
 		case 0, 1, 2:
